@@ -9,6 +9,7 @@ import (
 	"context"
 	"errors"
 	"fmt"
+	"net"
 	"strings"
 	"sync"
 	"testing"
@@ -209,5 +210,56 @@ func TestVerifReplaySessionTypestate(t *testing.T) {
 	}
 	if bad > 0 {
 		t.Fatalf("%d scenarios violate the transaction typestate / permit discipline", bad)
+	}
+}
+
+// LMTP: every recipient's reply must reflect the result of its own target, whatever spelling the client used in RCPT TO.
+func TestVerifReplaySessionTypestateLMTP(t *testing.T) {
+	bodyErr := errors.New("body failed")
+	bad := 0
+	for _, rcpt := range []string{"rcpt@example.com", "rcpt@EXAMPLE.com", "RCPT@Example.COM"} {
+		tgt := &vrMonTarget{bodyErr: bodyErr}
+		endp := testEndpoint(t, "lmtp", nil, tgt, nil, nil)
+		cl, err := smtp.Dial("127.0.0.1:" + testPort)
+		if err != nil {
+			t.Fatal(err)
+		}
+		// switch the client to LMTP
+		cl.Close()
+		conn, err := net.Dial("tcp", "127.0.0.1:"+testPort)
+		if err != nil {
+			t.Fatal(err)
+		}
+		lcl := smtp.NewClientLMTP(conn)
+		_ = lcl.Hello("mx.example.org")
+		replies := map[string]*smtp.SMTPError{}
+		got := 0
+		var dataErr error
+		if err := lcl.Mail("s@example.org", nil); err == nil {
+			if err := lcl.Rcpt(rcpt, &smtp.RcptOptions{}); err == nil {
+				w, err := lcl.LMTPData(func(r string, st *smtp.SMTPError) { replies[r] = st; got++ })
+				if err == nil {
+					w.Write([]byte("From: <a@example.org>\r\n\r\nhi\r\n"))
+					dataErr = w.Close()
+				} else {
+					dataErr = err
+				}
+			}
+		}
+		lcl.Close()
+		st := replies[rcpt]
+		// the target failed the body: the recipient's own reply must be that failure (a 5xx/4xx for this recipient),
+		// not a connection-level 421 / dropped connection
+		if got != 1 || st == nil || st.Code == 421 || dataErr != nil {
+			bad++
+			t.Logf("REPRODUCED: LMTP, RCPT TO:<%s>, target body failure: %d per-recipient replies (%v), DATA-level error: %v", rcpt, got, st, dataErr)
+		}
+		for i := 0; i < 100 && endp.sessionCnt.Load() != 0; i++ {
+			time.Sleep(10 * time.Millisecond)
+		}
+		endp.Close()
+	}
+	if bad > 0 {
+		t.Fatalf("%d LMTP transactions did not give the recipient the reply of its own target", bad)
 	}
 }
